@@ -5,7 +5,7 @@ from props.C15 import KINDS, Msg, accepted, hexs, py_encode, rand_key, rand_msg
 from props.C16 import sign
 
 PID = "C13"
-READY = False
+READY = True
 MANIFEST = {
     "level_text": "Lean 4 theorems about a model of Message.cpp's encode_signed/decode_signed and HmacSha256::verify, for an arbitrary MAC function with 32-byte tags (so independent of C08): decode_signed returns m exactly when the buffer has at least 32 bytes, its last 32 bytes equal the MAC under the key of the preceding bytes, and those bytes decode to m (iff); every other buffer or key is rejected, never out of bounds (rejected_unless_tagged, with tag changes, truncations, extensions as instances), and acceptance after a body or key change is reduced to an explicit MAC collision (body_change_needs_collision, other_key_needs_collision). The branch-free tag comparison is proved to be equality. Tied to the code by the regenerated digest size and a differential run of the real decode_signed against the compiled model instantiated with the Lean RFC 2104 HMAC-SHA256 of C08, on every single-bit flip, every truncation, extensions, reorderings, wrong keys and key lengths 0..100, with the Lean specification recomputing the MAC equation for every buffer the implementation accepts or rejects.",
     "level_note": "The clause 'any ... different key causes rejection' is proved in the exact form 'rejected unless the MAC equation holds': HMAC collision/forgery resistance is a cryptographic assumption and is not claimed (zero-extended keys up to the block size are genuine HMAC-equivalent keys and are accepted by any RFC 2104 implementation). Trusted: Lean kernel; hand transcription of decode_signed/verify (validated by the differential run); Spec/Hmac.lean as the monitor's MAC.",
@@ -69,7 +69,7 @@ def gen_case(rng, shape: str, big: bool) -> Case:
             ops.append(f"decs {hexs(key2)} {h}")                                       # wrong key
             ops.append(f"decs {hexs(key2)} {hexs(sign(key2, body))}")                   # right key of that length
             if n in (0, 64, 65, 100):
-                ops.append(f"rts {hexs(key2)} {m.tokens()}")
+                ops.append(f"svs {hexs(key2)} {m.tokens()}")
                 ops.append(f"encs {hexs(key2)} {m.tokens()}")
         if key:
             kb = bytearray(key)
@@ -86,7 +86,7 @@ def gen_case(rng, shape: str, big: bool) -> Case:
         for _ in range(4):
             m = rand_msg(rng, rng.choice(KINDS), size=rng.choice(["small", "edge"]))
             key = rand_key(rng)
-            ops.append(f"rts {hexs(key)} {m.tokens()}")
+            ops.append(f"svs {hexs(key)} {m.tokens()}")
             ops.append(f"encs {hexs(key)} {m.tokens()}")
     return Case(ops=ops, tag=f"{shape}/{kind}")
 
@@ -101,7 +101,7 @@ def generate(ctx, budget):
 
 def nontrivial(r: CaseResult) -> bool:
     """a case counts when it contains both an accepted and a rejected signed buffer"""
-    acc = [accepted(o) for op, o in zip(r.case.ops, r.impl) if op.startswith(("decs", "rts"))]
+    acc = [accepted(o) or o == "same" for op, o in zip(r.case.ops, r.impl) if op.startswith(("decs", "svs"))]
     return any(acc) and (not all(acc) or r.case.tag.startswith("structured"))
 
 
@@ -119,8 +119,8 @@ def spec() -> Spec:
         rule="signed buffers body||HMAC(key, body) over all six payload kinds: every single-bit flip (all positions for buffers "
              "<= 70 B in quick, <= 200 B in thorough; the tag always densely), truncation at every length, extension/prefixing by "
              "1..64 bytes, reordering (halves, tag first, reversed, swapped bytes, foreign tag), wrong keys and keys of length "
-             "0..100 (including zero-extended and shortened keys), correct tags over undecodable bodies, encs/rts through the "
-             "implementation; non-trivial = the case contains an accepted and a rejected buffer",
+             "0..100 (including zero-extended and shortened keys), correct tags over undecodable bodies, encs/svs (sign then verify "
+             "= plain encode then decode) through the implementation; non-trivial = the case contains an accepted and a rejected buffer",
         trusted_base=base.TRUSTED + ["Spec/Hmac.lean, Spec/Sha256.lean (RFC 2104 / FIPS 180-4 in Lean, property C08) as the monitor's MAC"],
         assumptions=["HMAC-SHA256 collision/forgery resistance is not claimed: the theorems state acceptance is *equivalent* to the MAC equation"],
     )
